@@ -1,1 +1,2 @@
 import RtoscModel.Basic
+import RtoscModel.Props.C17
